@@ -91,6 +91,13 @@ class Logged:
             raise self.fault[2]
         v = self.k * np.asarray(self.p["g"](x), dtype=float)
         self.gcalls.append((np.array(x, dtype=float).copy(), v.copy()))
+        if getattr(self, "buffer", False):
+            # one preallocated work array, filled and returned at every call
+            if getattr(self, "_gbuf", None) is None:
+                self._gbuf = v.copy()
+            else:
+                self._gbuf[:] = v
+            return self._gbuf
         return v
 
 
@@ -146,6 +153,16 @@ def run_once(p, cfg, L=None, checkpoint=None, x0=None, callback_kind=None, extra
     x0 = x0 if isinstance(x0, np.ndarray) else np.array(p["x0"] if x0 is None else x0, dtype=float)
     rec = dict(L=L, states=states, counters=counters, cfg=cfg, checkpoint=checkpoint, exc=None, res=None)
     keep_errstate = kw.pop("_keep_errstate", False)
+    # gradient computations by finite differences are counted where the package calls SciPy's routine (a wrapper put
+    # into the module's namespace for the duration of this call; nothing in the package is edited)
+    import lbfgsb.scalar_function as _sfm
+    _orig_ad = _sfm.approx_derivative
+    fd_count = [0]
+
+    def _counting_ad(*a, **k):
+        fd_count[0] += 1
+        return _orig_ad(*a, **k)
+    _sfm.approx_derivative = _counting_ad
     try:
         if keep_errstate:
             # (fault scenarios: a leaked numpy error state must stay observable)
@@ -157,6 +174,9 @@ def run_once(p, cfg, L=None, checkpoint=None, x0=None, callback_kind=None, extra
         rec["snap"] = snap(res)
     except Exception as e:  # noqa
         rec["exc"] = e
+    finally:
+        _sfm.approx_derivative = _orig_ad
+    rec["fd_grads"] = fd_count[0]
     rec["fcalls"] = L.fcalls[n0f:]
     rec["gcalls"] = L.gcalls[n0g:]
     return rec
@@ -234,6 +254,8 @@ def audit(rec, p, maxiter, maxfun, gtol, ftarget=None, scale=1.0, ck=None, ftarg
         bad["C05.nfev_equals_calls"] = "nfev=%d but %d (+%d at restart) objective calls were made" % (s["nfev"], len(rec["fcalls"]), nfev_base)
     if callable_grad and s["njev"] != njev0 + len(rec["gcalls"]) and not early_ck:
         bad["C05.njev_equals_calls"] = "njev=%d but %d (+%d at restart) gradient calls were made" % (s["njev"], len(rec["gcalls"]), njev0)
+    if not callable_grad and not early_ck and s["njev"] != njev0 + rec.get("fd_grads", 0):
+        bad["C05.njev_equals_calls"] = "njev=%d but %d (+%d at restart) finite-difference gradients were computed" % (s["njev"], rec.get("fd_grads", 0), njev0)
     # ---- C03
     seq = []
     if ck is None and rec["fcalls"]:
@@ -329,12 +351,14 @@ def scenario_single(c):
 
 def _single_one(c, name, p, out):
     L = Logged(p)
+    L.buffer = bool(c.get("jac_buffer"))
     ck = None
     ck_obj = None
     history = None
     if c.get("checkpoint"):
         # a checkpoint without pairs comes from an 'evaluate only' run (maxiter=0)
-        first = run_once(p, dict(maxiter=0 if c.get("ck_pairs") == 0 else c["ck_nit"], maxfun=10 ** 6, maxcor=c.get("ck_maxcor", c.get("maxcor", 10)), ftol=0.0, gtol=0.0), L=L)
+        first = run_once(p, dict(maxiter=0 if c.get("ck_pairs") == 0 else c["ck_nit"], maxfun=10 ** 6, maxcor=c.get("ck_maxcor", c.get("maxcor", 10)), ftol=0.0, gtol=0.0), L=L,
+                         extra=dict(jac=None if c["jac_mode"] == "none" else c["jac_mode"]) if c.get("jac_mode") else None)
         if first["exc"] is not None:
             out.append(dict(problem=name, error="first leg raised %r" % (first["exc"],)))
             return
@@ -358,6 +382,7 @@ def _single_one(c, name, p, out):
         cbks = [c.get("callback_kind")] if c.get("callback_kind") not in ("choose",) else ["false", "true", ["true_at", 1]]
         for cbk in cbks:
             L2 = L if ck is not None else Logged(p)
+            L2.buffer = bool(c.get("jac_buffer"))
             jx = None
             if c.get("jac_mode"):
                 jx = dict(jac=None if c["jac_mode"] == "none" else c["jac_mode"])
@@ -557,9 +582,22 @@ def scenario_update(c):
                 bad.setdefault("C13.identity_update_leaves_evaluations_identical", "evaluation points differ (ftol=%g ftarget=%r)" % (ftol, ftarget))
         # ---- switch of objective at update call `at`
         at = max(1, c.get("at", 2))
-        for kind in ("negated", "rescaled", "tilted") + (("adaptive_all", "adaptive_some") if epskw else ()):
+        for kind in ("negated", "rescaled", "tilted", "reject_newest") + (("adaptive_all", "adaptive_some") if epskw else ()):
             cfac = [3.0]
-            if kind.startswith("adaptive"):
+            bump = dict(xk=None, delta=None, sig2=1.0)
+            if kind == "reject_newest":
+                # 20 f plus a narrow bump at the current point, chosen at the switch so that the pair formed with the
+                # current point has s.y < 0 (rejected) while the stored pairs stay valid: the matrices must then be rebuilt
+                # from the STORED pairs of the NEW objective (its theta included)
+                def _h(z):
+                    if bump["xk"] is None:
+                        return 0.0, 0.0 * z
+                    dz = z - bump["xk"]
+                    e = np.exp(-dz.dot(dz) / bump["sig2"])
+                    return float(bump["delta"].dot(dz) * e), bump["delta"] * e - 2.0 * bump["delta"].dot(dz) * e * dz / bump["sig2"]
+                f2 = lambda x: 20.0 * float(p["f"](x)) + _h(np.asarray(x, float))[0]
+                g2 = lambda x: 20.0 * np.asarray(p["g"](x), float) + _h(np.asarray(x, float))[1]
+            elif kind.startswith("adaptive"):
                 # rescaling c*f chosen at the switch so that the rewritten pairs' s.y/y.y fall below the configured
                 # threshold (all of them / the lower half): only a filter that uses eps_SY drops them
                 f2 = lambda x: cfac[0] * float(p["f"](x))
@@ -589,6 +627,14 @@ def scenario_update(c):
                     if i != at:
                         return f0, f0_old, grad, G
                     state["switched"] = True
+                    if kind == "reject_newest" and len(X) >= 2:
+                        xk_ = np.array(x, float)
+                        last = np.array(X[-1], float)
+                        s_new = xk_ - last
+                        if s_new.dot(s_new) > 0:
+                            want = 20.0 * np.asarray(p["g"](last), float) - 20.0 * s_new       # gradient at xk: y' = -20 s
+                            bump["xk"], bump["delta"] = xk_, want - 20.0 * np.asarray(p["g"](xk_), float)
+                            bump["sig2"] = (0.1 ** 2) * min(float((xk_ - np.array(q, float)).dot(xk_ - np.array(q, float))) for q in X)
                     if kind.startswith("adaptive"):
                         Xl_, Gl_ = [np.array(v, float) for v in X], [np.array(v, float) for v in G]
                         rr = sorted(float((b - a).dot(gb - ga) / max((gb - ga).dot(gb - ga), 1e-300)) for a, b, ga, gb in zip(Xl_, Xl_[1:], Gl_, Gl_[1:]))
